@@ -10,6 +10,8 @@
 -/
 import Goloop.Proofs.C01Abs
 import Goloop.Proofs.C01G1
+import Goloop.Proofs.C01G2
+import Goloop.Proofs.C02Restart
 namespace Goloop.C01.Props
 open Goloop.C01
 
@@ -105,6 +107,34 @@ theorem vstep_votes_behind_state (n me : Nat) (evs : List Event) (hn : ∀ e ∈
     lexLe (voteKey v) ((run (start { n := n, me := me }) evs).height,
       (run (start { n := n, me := me }) evs).round, (run (start { n := n, me := me }) evs).step) :=
   (run_core _ evs hn (ev_start_fresh _ rfl rfl)).bnd (.vote v) hv
+
+/-- the votes handed to the machine by `vote` events -/
+def deliveredVotes (evs : List Event) : List VoteRec :=
+  evs.filterMap (fun e => match e with | .vote m => some m | _ => none)
+
+theorem mem_deliveredVotes (evs : List Event) (m : VoteRec) (h : Event.vote m ∈ evs) :
+    m ∈ deliveredVotes evs := by
+  unfold deliveredVotes
+  rw [List.mem_filterMap]
+  exact ⟨_, h, rfl⟩
+
+/-- **G2 for L-val (no crash).**  For every crash-free event sequence: whenever the machine has signed a
+    non-nil precommit (h, r, b), more than 2/3 of the validator indices `i < n` (counted exactly as the
+    Go threshold, distinct validators) have a prevote (i, h, r, b) that the machine knows of — delivered
+    to it by a `vote` event of this sequence, or signed by itself.  Since the statement holds for EVERY
+    event sequence, it holds for the prefix ending with the event that signed the precommit: the polka
+    was known at the moment of signing. -/
+theorem vstep_G2 (n me : Nat) (evs : List Event) (hn : ∀ e ∈ evs, e.noCrash) (v : VoteRec) (b : Blk)
+    (hv : Msg.vote v ∈ sentOf (run (start { n := n, me := me }) evs).eff)
+    (ht : v.typ = .precommit) (hb : v.val = some b) :
+    polkaKnown (deliveredVotes evs) n (sentOf (run (start { n := n, me := me }) evs).eff) v.height v.round b := by
+  have h2 := run_h2 (L := deliveredVotes evs) (start { n := n, me := me }) evs hn
+    (mem_deliveredVotes evs) (e2_start_fresh _ rfl rfl)
+  have hnn : (run (start { n := n, me := me }) evs).n = n :=
+    (run_inv (me := me) (n := n) { n := n, me := me } (.start :: evs) (inv_init me n)).hn
+  have := h2.g2 v b hv ht hb
+  rw [hnn] at this
+  exact this
 
 example : (∀ e ∈ ([.proposal 1 1 0 9 (-1), .blockPart 1 9, .async, .vote ⟨1,1,.prevote,0,some 9⟩,
     .timeout 3] : List Event), e.noCrash) := by
